@@ -82,12 +82,43 @@ func arithHandle(c map[string]J) map[string]J {
 			q = fmt.Sprintf("X is %s %s %s.", par(x), op, par(y))
 		}
 	}
+	// the same evaluation with the operands, and with the whole expression, reached through variables bound by earlier goals
+	qs := []string{q}
+	switch c["fam"].(string) {
+	case "u":
+		qs = append(qs, fmt.Sprintf("A = %s, %s", x.String(), strings.Replace(q, "("+x.String()+").", "(A).", 1)))
+	case "c":
+		qs = append(qs, fmt.Sprintf("A = %s, B = %s, A %s B.", x.String(), y.String(), op))
+	default:
+		e := strings.TrimSuffix(strings.TrimPrefix(q, "X is "), ".")
+		qs = append(qs, fmt.Sprintf("E = (%s), X is E.", e))
+		switch op {
+		case "min", "max", "xor":
+			qs = append(qs, fmt.Sprintf("A = %s, B = %s, X is %s(A, B).", x.String(), y.String(), op))
+		default:
+			qs = append(qs, fmt.Sprintf("A = %s, B = %s, X is A %s B.", x.String(), y.String(), op))
+		}
+	}
 	p := prolog.New(nil, nil)
+	var want string
+	if out["kind"] == "open" {
+		return map[string]J{"status": "discard", "why": "left open by the statement (overflowing / out-of-range shift, negative exponent)", "input": "?- " + q}
+	}
+	for _, qi := range qs[1:] {
+		got, err := arithQuery(p, qi)
+		if err != nil {
+			return map[string]J{"status": "mismatch", "input": "?- " + qi, "what": "query did not run", "expected": out, "observed": err.Error()}
+		}
+		ref, _ := arithQuery(p, q)
+		if got != ref {
+			return map[string]J{"status": "mismatch", "input": "?- " + qi, "what": "result of the evaluation differs from the one with the operands written in the expression", "expected": ref, "observed": got,
+				"sig": fmt.Sprintf("C07:int:%s:indirect", op)}
+		}
+	}
 	got, err := arithQuery(p, q)
 	if err != nil {
 		return map[string]J{"status": "mismatch", "input": "?- " + q, "what": "query did not run", "expected": out, "observed": err.Error()}
 	}
-	var want string
 	switch out["kind"] {
 	case "int":
 		want = "value: " + bigOf(out["v"]).String()
